@@ -1,6 +1,7 @@
 """C04 — parsing accepts exactly the well-typed filters; accepted ones never fail later."""
 from lib import *
 import C20
+import sem
 
 LEVEL = "other"
 EXPLANATION = ("Static rules: the (left type x operator) admissibility matrix and the literal lexer chosen per arm are "
@@ -58,109 +59,184 @@ def lexers_called(n):
     return out
 
 
+def _ctor_site_variant(n, enum_suffix):
+    """the `Enum::Variant` an expression node constructs (struct literal, tuple ctor call, unit path), else None"""
+    k = n.get("k")
+    d = ""
+    if k == "Struct":
+        d = norm(n["res"].get("path", ""))
+    elif k == "Call":
+        d = norm(n.get("callee", "")) if n.get("callee_kind", "").startswith("Ctor") else ""
+    elif k == "Path":
+        r = n["res"]
+        d = norm(r.get("path", "")) if r.get("r") == "def" and str(r.get("dk", "")).startswith("Ctor(Variant, Const") else ""
+    if ("::" + enum_suffix + "::") in ("::" + d):
+        return last_seg(d)
+    return None
+
+
+def _lexed_type(c):
+    cal0 = norm(c.get("callee") or "")
+    if cal0.endswith("lex::Lex::lex") or cal0.endswith("::lex_with") or cal0.endswith("LexWith::lex_with"):
+        m = re.search(r"Result<\((.*?), &str\)", norm(c.get("ty", "")))
+        return m.group(1) if m else norm(c.get("resolved") or cal0)
+    return None
+
+
+def _ty_is(v, name):
+    return norm(v.node.get("ty", "")).replace("&", "").replace("mut ", "").strip() == name
+
+
 def rule_admit(E, R):
     rule = "R04-admit"
     h = E.hir(LEX_LHS)
     if not h:
         return R.cannot(rule, LEX_LHS, "anchor not found")
-    body = h["body"]
-    table = {}
-    wild_err = False
-    target = None
-    for m in find_matches(body):
-        if m["scrut"].get("ty", "").startswith("(&types::Type, ast::field_expr::ComparisonOp)"):
-            target = m
-    if target is None:
-        return R.cannot(rule, LEX_LHS, "the (lhs type, operator) match was not found")
-    for a in target["arms"]:
-        pairs = tuple_pairs(a["pat"])
-        if pairs is None:
-            if a["pat"].get("k") == "PWild":
-                errs = explicit_err_returns(a["body"])
-                wild_err = bool(errs) and any("UnsupportedOp" in str(built_variants(r, "LexErrorKind")) for r in errs)
+    S = sem.Sem(E, h)
+    UT = sem.enum_universe(E, "types::Type")
+    UO = sem.enum_universe(E, "ast::field_expr::ComparisonOp")
+    UB = sem.enum_universe(E, "ast::field_expr::BytesOp")
+    pT = lambda v: _ty_is(v, "types::Type")
+    pO = lambda v: _ty_is(v, "ast::field_expr::ComparisonOp")
+    pB = lambda v: _ty_is(v, "ast::field_expr::BytesOp")
+    import itertools
+    full = set(itertools.product(UT, UO))
+    built = {}      # (type, op) -> set of node variants built under it
+    lexed = {}      # (type, op) -> set of lexed types
+    built_b, lexed_b = {}, {}
+    unsupported = set()
+    n_sites = 0
+    lhs_ty_ok = []
+    for s in S.sites():
+        n = s.node
+        v = _ctor_site_variant(n, "ComparisonOpExpr")
+        lt = _lexed_type(n) if n.get("k") in ("Call", "MethodCall") else None
+        if v is None and lt is None and _ctor_site_variant(n, "LexErrorKind") != "UnsupportedOp":
             continue
-        built = built_variants(a["body"], "ComparisonOpExpr")
-        lx = lexers_called(a["body"])
-        for pr in pairs:
-            table[pr] = (frozenset(built), frozenset(lx))
+        adm = sem.admitted_tuples(s.pc, [pT, pO], [UT, UO])
+        if _ctor_site_variant(n, "LexErrorKind") == "UnsupportedOp":
+            unsupported |= adm
+            continue
+        if adm == full or not any(a.kind == "is" and any(pO(x) for x in a.scruts) for a, _ in sem.is_literals(s.pc) + _is_atoms_anywhere(s.pc)):
+            continue        # not under the (type, operator) decision
+        n_sites += 1
+        short = {(last_seg(a), last_seg(b)) for a, b in adm}
+        for pr in short:
+            if v is not None:
+                built.setdefault(pr, set()).add(v)
+            if lt is not None:
+                lexed.setdefault(pr, set()).add(lt)
+        admb = {last_seg(x[0]) for x in sem.admitted_tuples(s.pc, [pB], [UB])}
+        if len(admb) < len(UB):
+            for bo in admb:
+                if v is not None:
+                    built_b.setdefault(bo, set()).add(v)
+                if lt is not None:
+                    lexed_b.setdefault(bo, set()).add(lt)
+        # the In / Ordering literals are lexed with the *lhs type*
+        if lt is not None and "RhsValue" in lt:
+            args = call_args(n)
+            tycomp = None
+            for a, pol in sem.is_literals(s.pc) + _is_atoms_anywhere(s.pc):
+                for x in a.scruts:
+                    if pT(x):
+                        tycomp = x
+            lhs_ty_ok.append((bool(tycomp is not None and args and S.same(args[-1], s.frame, tycomp.node, tycomp.frame)), n["sp"]))
     want_pairs = {("Ip", "In"), ("Bytes", "In"), ("Int", "In"), ("Ip", "Ordering"), ("Bytes", "Ordering"), ("Int", "Ordering"),
                   ("Int", "Int"), ("Bytes", "Bytes")}
-    got_pairs = set(table)
+    got_pairs = set(built)
     R.check(got_pairs == want_pairs, rule, LEX_LHS, "admitted (left type, operator) pairs equal the documented matrix",
-            "extra %s missing %s" % (sorted(got_pairs - want_pairs), sorted(want_pairs - got_pairs)), target["sp"])
-    R.check(wild_err, rule, LEX_LHS, "every other pair is rejected with UnsupportedOp", where=target["sp"])
+            "extra %s missing %s" % (sorted(got_pairs - want_pairs), sorted(want_pairs - got_pairs)), h["span"])
+    # pairs that can reach the decision at all: every left type that is not handled before it (Bool, containers of Bool)
+    reach = set()
+    for s in S.sites():
+        if s.node.get("k") == "Match" and not sem.is_try(s.node) and "ComparisonOp)" in norm(s.node["scrut"].get("ty", "")):
+            reach |= {(last_seg(a), last_seg(b)) for a, b in sem.admitted_tuples(s.pc, [pT, pO], [UT, UO])}
+    if not reach:
+        reach = {(last_seg(a), last_seg(b)) for a, b in full if last_seg(a) != "Bool"}
+    need = {(last_seg(a), last_seg(b)) for a, b in full if last_seg(a) != "Bool"}
+    R.check(need <= reach, rule, LEX_LHS, "the operator decision is reached for every non-Bool left type", "missing %s" % sorted(need - reach), h["span"])
+    rest = reach - want_pairs
+    uns = {(last_seg(a), last_seg(b)) for a, b in unsupported}
+    R.check(rest <= uns, rule, LEX_LHS, "every other pair is rejected with UnsupportedOp",
+            "pairs neither admitted nor rejected with UnsupportedOp: %s" % sorted(rest - uns), h["span"])
     for pr in sorted(got_pairs & want_pairs):
-        built, lx = table[pr]
+        b_, lx = built.get(pr, set()), lexed.get(pr, set())
+        d = "builds %s with %s" % (sorted(b_), sorted(lx))
         if pr[1] == "In":
-            ok = built == {"InList", "OneOf"} and any("RhsValues" in x for x in lx) and any("ListName" in x for x in lx)
-            d = "builds %s with %s" % (sorted(built), sorted(lx))
+            ok = b_ == {"InList", "OneOf"} and any("RhsValues" in x for x in lx) and any("ListName" in x for x in lx)
         elif pr[1] == "Ordering":
-            ok = built == {"Ordering"} and any(x.endswith("types::RhsValue") for x in lx)
-            d = "builds %s with %s" % (sorted(built), sorted(lx))
+            ok = b_ == {"Ordering"} and any(x.endswith("types::RhsValue") for x in lx)
         elif pr[1] == "Int":
-            ok = built == {"Int"} and "i64" in lx
-            d = "builds %s with %s" % (sorted(built), sorted(lx))
+            ok = b_ == {"Int"} and "i64" in lx
         else:
-            ok = built == {"Contains", "Matches", "Wildcard", "StrictWildcard"}
-            d = "builds %s" % sorted(built)
-        R.check(ok, rule, LEX_LHS, "arm (%s, %s) builds the operator node from a literal of the right kind" % pr, d, target["sp"])
-    # the In / Ordering literals are lexed with the *lhs type*
-    for c in exprs(target, ("Call", "MethodCall")):
-        cal = norm(c.get("callee", ""))
-        if cal.endswith("LexWith::lex_with") and ("RhsValue" in c.get("ty", "")):
-            args = call_args(c)
-            R.check(local_name(args[-1]) == "lhs_type", rule, LEX_LHS, "literal lexed with the left-hand side's type",
-                    where=c["sp"])
-    # bytes operators: inner table
-    inner = {}
-    for m in find_matches(target, r"BytesOp$"):
-        for a in m["arms"]:
-            for v in pat_variants(a["pat"]):
-                inner[last_seg(v)] = (frozenset(built_variants(a["body"], "ComparisonOpExpr")), frozenset(lexers_called(a["body"])))
+            ok = b_ == {"Contains", "Matches", "Wildcard", "StrictWildcard"}
+        R.check(ok, rule, LEX_LHS, "arm (%s, %s) builds the operator node from a literal of the right kind" % pr, d, h["span"])
+    for ok, sp_ in lhs_ty_ok:
+        R.check(ok, rule, LEX_LHS, "literal lexed with the left-hand side's type", where=sp_)
+    R.floor(rule, "right-hand side literals lexed with a type", len(lhs_ty_ok), 2)
     want_inner = {"Contains": ("Contains", "BytesExpr"), "Matches": ("Matches", "Regex"),
                   "Wildcard": ("Wildcard", "Wildcard<false>"), "StrictWildcard": ("StrictWildcard", "Wildcard<true>")}
     for op, (node, lit) in want_inner.items():
-        got = inner.get(op)
-        ok = got is not None and got[0] == {node} and any(x.endswith(lit) for x in got[1])
-        R.check(ok, rule, LEX_LHS, "bytes operator %s -> %s(%s literal)" % (op, node, lit), "extracted %s" % (got,), target["sp"])
-    # IsTrue branches
-    ifs = [i for i in exprs(body, "If", into_closures=False)]
+        gb, gl = built_b.get(op), lexed_b.get(op, set())
+        ok = gb == {node} and any(x.endswith(lit) for x in gl)
+        R.check(ok, rule, LEX_LHS, "bytes operator %s -> %s(%s literal)" % (op, node, lit), "extracted %s with %s" % (gb, sorted(gl)), h["span"])
+    # IsTrue branches: built only for Bool / containers of Bool, and [*] over containers of Bool containers rejected
+    ist = [s for s in S.sites() if _ctor_site_variant(s.node, "ComparisonOpExpr") == "IsTrue"]
     bool_branch = vec_branch = mapeach_rejected = False
-    for i in ifs:
-        c = strip(i["cond"])
-        if c.get("k") == "Binary" and c["op"] == "Eq":
-            l, r = c["l"], c["r"]
-            if local_name(l) == "lhs_type" and def_path(r) == "types::Type::Bool":
-                bool_branch = built_variants(i["then"], "ComparisonOpExpr") == {"IsTrue"}
-            lm = strip(l)
-            if lm.get("k") == "MethodCall" and lm["m"] == "next" and local_name(lm["recv"]) == "lhs_type":
-                rr = strip(r)
-                if rr.get("k") == "Call" and norm(rr.get("callee", "")) == "core::option::Option::Some" and def_path(rr["args"][0]) == "types::Type::Bool":
-                    vec_branch = "IsTrue" in built_variants(i["then"], "ComparisonOpExpr")
-                    for j in exprs(i["then"], "If"):
-                        cj = strip(j["cond"])
-                        if cj.get("k") == "Binary" and cj["op"] == "Gt" and any(x["m"] == "map_each_count" for x in exprs(cj, "MethodCall")):
-                            mapeach_rejected = bool(explicit_err_returns(j["then"]))
+    for s in ist:
+        for a, pol in sem.is_literals(s.pc):
+            if not pol:
+                continue
+            alts = {x[0] for x in a.alts}
+            if len(a.scruts) == 1 and pT(a.scruts[0]) and alts == {"Type::Bool"}:
+                bool_branch = True
+            if len(a.scruts) == 1 and alts == {"Option::Some(Type::Bool)"} and sem.is_method(a.scruts[0].node, "next") is not None:
+                vec_branch = True
+                for f in sem.refuted(s.pc):
+                    for op, l, r, fr, c in sem.weak_cmps(((f, True),)):
+                        if (op, lit_value(l)) in (("Lt", 0), ("Le", 1)) and sem.is_method(r, "map_each_count") is not None:
+                            mapeach_rejected = True
+                        if op == "Ne" and lit_value(r) == 0 and sem.is_method(l, "map_each_count") is not None:
+                            mapeach_rejected = True
     R.check(bool_branch, rule, LEX_LHS, "a Bool left side takes no operator (IsTrue)", where=h["span"])
     R.check(vec_branch, rule, LEX_LHS, "a container of Bool takes no operator (IsTrue)", where=h["span"])
     R.check(mapeach_rejected, rule, LEX_LHS, "[*] on a container of Bool containers is rejected", where=h["span"])
 
 
-def cast_variant(hbody):
-    """LhsValue variant(s) a compare body casts its value to (match value { LhsValue::X(v) => v, _ => unreachable })"""
+def _is_atoms_anywhere(pc):
+    """`is` atoms occurring anywhere in a path condition (also under disjunctions), with polarity None"""
     out = []
-    for m in find_matches(hbody, r"types::LhsValue"):
-        named = []
-        catch_all_panics = False
-        for a in m["arms"]:
-            vs = pat_variants(a["pat"])
-            if vs:
-                named += [last_seg(v) for v in vs if "LhsValue::" in v]
-            else:
-                catch_all_panics = any(norm(c.get("callee", "")).startswith("core::panicking") for c in exprs(a["body"], "Call")) or \
-                    any(True for c in exprs(a["body"], "Call") if "unreachable" in norm(c.get("callee", "")))
-        if named and catch_all_panics:
-            out.append(tuple(sorted(named)))
+
+    def go(f):
+        if f[0] == "atom":
+            if f[1].kind == "is":
+                out.append((f[1], None))
+        elif f[0] == "not":
+            go(f[1])
+        elif f[0] in ("and", "or"):
+            for g in f[1]:
+                go(g)
+    for f, _ in pc:
+        go(f)
+    return out
+
+
+def cast_variant(E, hb):
+    """LhsValue variant(s) a compare body assumes for its value: for every explicit panic site (also in private helpers
+    of the same file) whose path condition restricts an LhsValue, the variants under which it does NOT panic"""
+    S = sem.Sem(E, hb)
+    U = sem.enum_universe(E, "types::LhsValue")
+
+    def pv(v):
+        return norm(v.node.get("ty", "")).replace("&", "").replace("mut ", "").strip() == "types::LhsValue"
+    out = []
+    for s in S.sites():
+        n = s.node
+        if n.get("k") == "Call" and norm(n.get("callee", "")).startswith("core::panicking"):
+            adm = sem.admitted_tuples(s.pc, [pv], [U])
+            if len(adm) < len(U):
+                out.append(tuple(sorted(last_seg(u) for u in U if (u,) not in adm)))
     return out
 
 
@@ -196,7 +272,7 @@ def rule_cast(E, R):
             if not hb or "body" not in hb:
                 R.cannot(rule, norm(it["path"]), "no body")
                 continue
-            casts = cast_variant(hb["body"])
+            casts = cast_variant(E, hb)
             fn = norm(it["path"])
             if it["dp"] in nested_expect:
                 exp, cmp_, rv = nested_expect[it["dp"]]
@@ -229,26 +305,32 @@ def rule_cast(E, R):
         R.check(ok, rule, fn, "a literal lexed for type T is the %s::T variant" % enum, str({k: sorted(v) for k, v in tbl.items()}), hl["span"])
 
 
-def _nested_pairs(h, outer_re, inner_re, ok_pred):
-    """{(inner variant, outer variant)} over `match outer { O => match inner { I => <ok> }}`"""
-    got = set()
-    for m in find_matches(h["body"], outer_re, into_closures=False):
-        for a in m["arms"]:
-            ov = [last_seg(v) for v in pat_variants(a["pat"])]
-            if not ov:
-                continue
-            inner_found = False
-            for mi in find_matches(a["body"], inner_re, into_closures=False):
-                inner_found = True
-                for ai in mi["arms"]:
-                    for iv in pat_variants(ai["pat"]):
-                        if ok_pred(ai["body"]):
-                            for o in ov:
-                                got.add((last_seg(iv), o))
-            if not inner_found and ok_pred(a["body"]):
-                for o in ov:
-                    got.add(("*", o))
-    return got
+def _pair_tables(E, h, accept_pred, reject_pred, container_re):
+    """(accepted pairs from the accepting sites, accepted pairs as the complement of the rejecting sites, #accept, #reject)
+    pairs are (container variant, index kind) by last segment"""
+    S = sem.Sem(E, h)
+    UA = sem.enum_universe(E, "types::Type") if "Type" in container_re else sem.enum_universe(E, "types::LhsValue")
+    UB = sem.enum_universe(E, "scheme::FieldIndex")
+    rx = re.compile(container_re)
+
+    def pa(v):
+        return bool(rx.search(norm(v.node.get("ty", "")).replace("&", "").replace("mut ", "")))
+
+    def pb(v):
+        return norm(v.node.get("ty", "")).replace("&", "").replace("mut ", "").strip() == "scheme::FieldIndex"
+    acc, rej = None, None
+    na = nr = 0
+    for s in S.sites():
+        if accept_pred(S, s):
+            na += 1
+            acc = (acc or set()) | sem.admitted_tuples(s.pc, [pa, pb], [UA, UB])
+        if reject_pred(S, s):
+            nr += 1
+            rej = (rej or set()) | sem.admitted_tuples(s.pc, [pa, pb], [UA, UB])
+    import itertools
+    comp = (set(itertools.product(UA, UB)) - rej) if rej is not None else None
+    short = lambda t: None if t is None else {(last_seg(x), last_seg(y)) for x, y in t}
+    return short(acc), short(comp), na, nr
 
 
 def rule_index(E, R):
@@ -256,223 +338,230 @@ def rule_index(E, R):
     ALL = {("Array", "ArrayIndex"), ("Map", "MapKey"), ("Array", "MapEach"), ("Map", "MapEach")}
     DIRECT = {("Array", "ArrayIndex"), ("Map", "MapKey")}
 
-    def not_err(b):
-        return not explicit_err_returns(b) and not (tail(b).get("k") == "Call" and norm(tail(b).get("callee", "")) == "core::result::Result::Err") \
-            and not any(norm(c.get("callee", "")).startswith("core::panicking") for c in exprs(b, "Call"))
-    # parser
-    fn = "<ast::index_expr::IndexExpr as lex::LexWith<&ast::parse::FilterParser>>::lex_with"
-    h = E.hir(fn)
-    tables = {}
-    if h:
-        tables[fn] = _nested_pairs(h, r"^&?scheme::FieldIndex$", r"^types::Type$", not_err)
-    else:
-        R.cannot(rule, fn, "anchor not found")
-    # static typing
-    fn2 = "<ast::index_expr::IndexExpr as types::GetType>::get_type"
-    h2 = E.hir(fn2)
-    if h2:
-        got = set()
-        for m in find_matches(h2["body"]):
-            for a in m["arms"]:
-                prs = tuple_pairs(a["pat"])
-                if prs and not_err(a["body"]):
-                    got |= {p for p in prs if "_" not in p}
-        tables[fn2] = got
-    else:
-        R.cannot(rule, fn2, "anchor not found")
-    # run-time accessors
-    fn3 = "types::LhsValue::get"
-    h3 = E.hir(fn3)
-    if h3:
-        got = set()
-        for m in find_matches(h3["body"]):
-            for a in m["arms"]:
-                prs = tuple_pairs(a["pat"])
-                t = tail(a["body"])
-                if prs and t.get("k") == "Call" and norm(t.get("callee", "")) == "core::result::Result::Ok":
-                    got |= {p for p in prs if "_" not in p}
-        tables[fn3] = got
-    else:
-        R.cannot(rule, fn3, "anchor not found")
+    def is_err_struct(S, s):
+        return s.node.get("k") == "Struct" and norm(s.node["res"].get("path", "")).endswith("scheme::IndexAccessError")
 
-    def is_ok(b):
-        t = tail(b)
-        return t.get("k") == "Call" and norm(t.get("callee", "")) == "core::result::Result::Ok"
-    fn4 = "types::LhsValue::extract"
-    h4 = E.hir(fn4)
-    if h4:
-        tables[fn4] = _nested_pairs(h4, r"^&?scheme::FieldIndex$", r"^&?types::LhsValue$", is_ok)
-    else:
-        R.cannot(rule, fn4, "anchor not found")
-    fn5 = "ast::index_expr::FieldIndexIterator::new"
-    h5 = E.hir(fn5)
-    if h5:
-        tables[fn5] = _nested_pairs(h5, r"^&?scheme::FieldIndex$", r"^&?types::LhsValue$", is_ok)
-    else:
-        R.cannot(rule, fn5, "anchor not found")
-    want = {fn: ALL, fn2: ALL, fn3: DIRECT, fn4: DIRECT, fn5: ALL}
-    for f, got in tables.items():
-        R.check(got == want[f], rule, f, "accepted (container, index kind) pairs", "extracted %s expected %s" % (sorted(got), sorted(want[f])))
-    R.floor(rule, "index tables extracted", len(tables), 5)
+    def is_panic(S, s):
+        return s.node.get("k") == "Call" and norm(s.node.get("callee", "")).startswith("core::panicking")
+
+    def is_reject(S, s):
+        return is_err_struct(S, s) or is_panic(S, s)
+
+    def push_index(S, s):
+        n = s.node
+        return n.get("k") == "MethodCall" and n["m"] == "push" and "Vec<scheme::FieldIndex>" in norm(strip(n["recv"]).get("ty", ""))
+
+    def ok_leaf_pred(h):
+        def pred(S, s, cache={}):
+            if "l" not in cache:
+                cache["l"] = {id(x.node) for x in S.result_leaves()
+                              if x.node.get("k") == "Call" and norm(x.node.get("callee", "")) == "core::result::Result::Ok"}
+            return id(s.node) in cache["l"]
+        return pred
+
+    specs = [
+        ("<ast::index_expr::IndexExpr as lex::LexWith<&ast::parse::FilterParser>>::lex_with", ALL, push_index, is_reject, r"^types::Type$"),
+        ("<ast::index_expr::IndexExpr as types::GetType>::get_type", ALL, lambda S, s: False, is_reject, r"^types::Type$"),
+        ("types::LhsValue::get", DIRECT, None, is_reject, r"^types::LhsValue$"),
+        ("types::LhsValue::extract", DIRECT, None, is_reject, r"^types::LhsValue$"),
+        ("ast::index_expr::FieldIndexIterator::new", ALL, None, is_reject, r"^types::LhsValue$"),
+    ]
+    n = 0
+    for fn, want, acc_pred, rej_pred, cre in specs:
+        h = E.hir(fn)
+        if not h:
+            R.cannot(rule, fn, "anchor not found")
+            continue
+        acc, comp, na, nr = _pair_tables(E, h, acc_pred or ok_leaf_pred(h), rej_pred, cre)
+        if acc is None and comp is None:
+            R.cannot(rule, fn, "neither an accepting nor a rejecting site was found")
+            continue
+        n += 1
+        got = acc if acc is not None else comp
+        ok = (acc is None or acc == want) and (comp is None or comp == want)
+        R.check(ok, rule, fn, "accepted (container, index kind) pairs",
+                "accepting sites (%d) admit %s; rejecting sites (%d) leave %s; expected %s" % (
+                    na, sorted(acc) if acc is not None else "-", nr, sorted(comp) if comp is not None else "-", sorted(want)), h["span"])
+    R.floor(rule, "index tables extracted", n, 5)
 
 
-def _guarded_by_preceding_return(block_stmts, upto, cond_pred):
-    """a statement before index `upto` is `if <cond_pred(cond)> { return Err(..) }`"""
-    for st in block_stmts[:upto]:
-        for i in exprs(st, "If", into_closures=False):
-            if cond_pred(strip(i["cond"])) and explicit_err_returns(i["then"]):
-                return True
-    return False
+def _get_type_recv(S, v):
+    """if the value is `X.get_type()` (after resolving locals) return (X node, frame)"""
+    rv = S.resolve(v.node, v.frame)
+    r = sem.is_method(rv.node, "get_type")
+    return (r, rv.frame) if r is not None else None
+
+
+def _admitted(S, pc, pred):
+    return sem.admits(pc, pred, None)
 
 
 def rule_guards(E, R):
     rule = "R04-guards"
-    # root of a filter must be Bool
+    # ---- root of a filter must be Bool
     fn = "<ast::FilterAst as lex::LexWith<&ast::parse::FilterParser>>::lex_with"
     h = E.hir(fn)
     if h:
-        ok = False
-        n_lit = 0
-        for n, st in walk_arms(h["body"]):
-            if n.get("k") == "Struct" and norm(n["res"].get("path", "")).endswith("ast::FilterAst"):
-                n_lit += 1
-                vs = arm_variants(st, "Type")
-                ok = vs == ["Bool"]
-        R.check(ok and n_lit == 1, rule, fn, "a FilterAst is built only when the root type is Bool", where=h["span"])
-        # and the matched value is the root's static type
-        good = False
-        for m in find_matches(h["body"], r"^types::Type$"):
-            nm = local_name(m["scrut"])
-            for s in exprs(h["body"], "SLet"):
-                if nm in pat_bindings(s["pat"]) and "init" in s:
-                    i = strip(s["init"])
-                    good = i.get("k") == "MethodCall" and i["m"] == "get_type" and local_name(i["recv"]) == "op"
-        R.check(good, rule, fn, "the checked type is the root expression's static type", where=h["span"])
+        S = sem.Sem(E, h)
+        sites = [s for s in S.sites() if s.node.get("k") == "Struct" and norm(s.node["res"].get("path", "")).endswith("ast::FilterAst")]
+        R.check(len(sites) >= 1, rule, fn, "FilterAst construction site found", where=h["span"])
+        for s in sites:
+            opf = [f["e"] for f in s.node["fields"] if f["name"] == "op"]
+
+            def is_root_type(v, s=s, opf=opf):
+                g = _get_type_recv(S, v)
+                return bool(g and opf and S.same(g[0], g[1], opf[0], s.frame))
+            adm = sem.admits(s.pc, lambda v: _get_type_recv(S, v) is not None, None)
+            R.check(adm == {"Type::Bool"}, rule, fn, "a FilterAst is built only when the root type is Bool",
+                    "the construction is reached with the root type restricted to %s" % (sorted(adm) if adm else "nothing"), s.node["sp"])
+            adm2 = sem.admits(s.pc, is_root_type, None)
+            R.check(adm2 == {"Type::Bool"}, rule, fn, "the checked type is the root expression's static type",
+                    "the Bool test is not on get_type() of the expression stored in FilterAst.op", s.node["sp"])
     else:
         R.cannot(rule, fn, "anchor not found")
+    # ---- a value expression must not contain [*]
     fn = "<ast::FilterValueAst as lex::LexWith<&ast::parse::FilterParser>>::lex_with"
     h = E.hir(fn)
     if h:
-        ok = False
-        for n, st in walk_arms(h["body"]):
-            if n.get("k") == "Struct" and norm(n["res"].get("path", "")).endswith("ast::FilterValueAst"):
-                for ent in st:
-                    if ent[0] == "if" and ent[2] is False:
+        S = sem.Sem(E, h)
+        sites = [s for s in S.sites() if s.node.get("k") == "Struct" and norm(s.node["res"].get("path", "")).endswith("ast::FilterValueAst")]
+        R.check(len(sites) >= 1, rule, fn, "FilterValueAst construction site found", where=h["span"])
+        for s in sites:
+            opf = [f["e"] for f in s.node["fields"] if f["name"] == "op"]
+            ok = False
+            for op, l, r, fr, certain in sem.weak_cmps(s.pc):
+                if not certain:
+                    continue
+                for cnt, lit, o in ((l, r, op), (r, l, {"Lt": "Gt", "Le": "Ge"}.get(op, op))):
+                    recv = sem.is_method(cnt, "map_each_count")
+                    v = lit_value(lit)
+                    if recv is None or not isinstance(v, int):
+                        continue
+                    zero = (o, v) in (("Le", 0), ("Eq", 0), ("Lt", 1))
+                    if zero and opf and S.same(recv, fr, opf[0], s.frame):
                         ok = True
-        cond_ok = any(strip(i["cond"]).get("k") == "Binary" and strip(i["cond"])["op"] == "Gt" and
-                      any(c["m"] == "map_each_count" for c in exprs(i["cond"], "MethodCall")) and lit_value(strip(i["cond"])["r"]) == 0
-                      for i in exprs(h["body"], "If"))
-        R.check(ok and cond_ok, rule, fn, "a value expression containing [*] is rejected", where=h["span"])
+            R.check(ok, rule, fn, "a value expression containing [*] is rejected",
+                    "FilterValueAst must be built only where op.map_each_count() is known to be 0", s.node["sp"])
     else:
         R.cannot(rule, fn, "anchor not found")
+    # ---- quantifier argument
     fn = "<ast::logical_expr::QuantifierArgExpr as lex::LexWith<&ast::parse::FilterParser>>::lex_with"
     h = E.hir(fn)
     if h:
-        ok = False
-        for i in exprs(h["body"], "If"):
-            c = strip(i["cond"])
-            if c.get("k") == "Binary" and c["op"] == "Eq" and local_name(c["l"]) == "actual" and \
-                    norm(strip(c["r"]).get("callee", "")) == "ast::logical_expr::bool_array_type":
-                t = tail(i["then"])
-                e = tail(i.get("else", {}))
-                ok = norm(t.get("callee", "")) == "core::result::Result::Ok" and norm(e.get("callee", "")) == "core::result::Result::Err"
-        oks = [c for c in exprs(h["body"], "Call") if norm(c.get("callee", "")) == "core::result::Result::Ok" and not c.get("x")]
-        R.check(ok and len(oks) == 1, rule, fn, "quantifier argument accepted only when its type is Array(Bool)", where=h["span"])
+        S = sem.Sem(E, h)
+        oks = [s for s in S.result_leaves() if s.node.get("k") == "Call" and norm(s.node.get("callee", "")) == "core::result::Result::Ok"]
+        R.check(len(oks) >= 1, rule, fn, "accepting return found", where=h["span"])
+        for s in oks:
+            adm = sem.admits(s.pc, lambda v: _get_type_recv(S, v) is not None, None)
+            R.check(adm == {"Type::Array(Type::Bool)"}, rule, fn, "quantifier argument accepted only when its type is Array(Bool)",
+                    "accepted with the argument type restricted to %s" % (sorted(adm) if adm else "nothing"), s.node["sp"])
+            kinds = sem.admits(s.pc, lambda v: "FunctionCallArgExpr" in norm(v.node.get("ty", "")), None)
+            R.check(kinds is not None and "FunctionCallArgExpr::Literal" not in kinds, rule, fn, "a literal quantifier argument is rejected",
+                    "accepted argument kinds: %s" % (sorted(kinds) if kinds else "unrestricted"), s.node["sp"])
         hb = E.hir("ast::logical_expr::bool_array_type")
-        good = False
         if hb:
-            t = tail(hb["body"])
-            good = norm(t.get("callee", "")) == "types::Type::Array" and any(def_path(p) == "types::Type::Bool" for p in exprs(t, "Path"))
-        R.check(good, rule, "ast::logical_expr::bool_array_type", "bool_array_type() is Array(Bool)")
-        # a literal argument is rejected
-        lit_err = False
-        for m in find_matches(h["body"], r"FunctionCallArgExpr"):
-            for a in m["arms"]:
-                if [last_seg(v) for v in pat_variants(a["pat"])] == ["Literal"]:
-                    lit_err = bool(explicit_err_returns(a["body"]))
-        R.check(lit_err, rule, fn, "a literal quantifier argument is rejected", where=h["span"])
+            R.check(sem.expr_variant_repr(tail(hb["body"])) == "Type::Array(Type::Bool)", rule, "ast::logical_expr::bool_array_type",
+                    "bool_array_type() is Array(Bool)")
     else:
         R.cannot(rule, fn, "anchor not found")
-    # logical operands
+    # ---- logical operands
     fn = "ast::logical_expr::LogicalExpr::lex_more_with_precedence"
     h = E.hir(fn)
     if h:
-        found = False
-        sites = [x for x in exprs(h["body"], "Struct", into_closures=False) if norm(x["res"].get("path", "")).endswith("LogicalExpr::Combining")]
-        sites += [c for c in exprs(h["body"], "MethodCall", into_closures=False) if c["m"] == "push" and local_name(c["recv"]) == "items"]
-        for site in sites:
-            pre = preceding_stmts(h["body"], site) or []
-            guard = False
-            for prev in pre:
-                for m in exprs(prev, "Match", into_closures=False):
-                    acc = set()
-                    rej = False
-                    for a in m["arms"]:
-                        prs = tuple_pairs(a["pat"])
-                        if prs:
-                            acc |= set(prs)
-                        elif a["pat"].get("k") == "PWild":
-                            rej = bool(explicit_err_returns(a["body"]))
-                    if acc == {("Bool", "Bool"), ("Array", "Array")} and rej:
-                        sc = strip(m["scrut"])
-                        names = [local_name(x) for x in sc.get("es", [])]
-                        guard = guard or names == ["lhsty", "rhsty"]
-            found = True
-            R.check(guard, rule, fn, "Combining built/extended only after the (Bool,Bool)|(Array,Array) operand check",
-                    where=site.get("sp", h["span"]))
-        R.check(found, rule, fn, "Combining construction sites found", where=h["span"])
-        # operand types are those of lhs and rhs
-        good = False
-        for s in exprs(h["body"], "SLet"):
-            if set(pat_bindings(s["pat"])) == {"lhsty", "rhsty"} and "init" in s:
-                es = strip(s["init"]).get("es", [])
-                if len(es) == 2:
-                    a, b = strip(es[0]), strip(es[1])
-                    good = a.get("m") == "get_type" and local_name(a["recv"]) == "lhs" and b.get("m") == "get_type" and \
-                        strip(b["recv"]).get("k") == "Field" and local_name(strip(b["recv"])["e"]) == "rhs"
-        R.check(good, rule, fn, "the checked types are the static types of both operands", where=h["span"])
+        S = sem.Sem(E, h)
+        sites = []
+        for s in S.sites():
+            n = s.node
+            if n.get("k") == "Struct" and norm(n["res"].get("path", "")).endswith("LogicalExpr::Combining"):
+                sites.append(s)
+            elif n.get("k") == "MethodCall" and n["m"] in ("push", "extend", "insert") and \
+                    "LogicalExpr" in norm(strip(n["recv"]).get("ty", "")) and "Vec<" in norm(strip(n["recv"]).get("ty", "")):
+                sites.append(s)
+        R.check(len(sites) >= 2, rule, fn, "Combining construction sites found", "found %d" % len(sites), h["span"])
+        for s in sites:
+            best = None
+            for a, pol in sem.is_literals(s.pc):
+                if not pol or len(a.scruts) != 2:
+                    continue
+                if all(_get_type_recv(S, v) is not None for v in a.scruts):
+                    best = a
+            alts = {tuple(sem.variant_head(x) for x in alt) for alt in best.alts} if best else None
+            R.check(alts == {("Type::Bool", "Type::Bool"), ("Type::Array", "Type::Array")}, rule, fn,
+                    "Combining built/extended only after the (Bool,Bool)|(Array,Array) operand check",
+                    "operand types restricted to %s" % (sorted(alts) if alts else "nothing"), s.node.get("sp", h["span"]))
+            # the two checked types are those of the two operands that are combined
+            good = False
+            if best:
+                roots = [sem.root_local(S, *_get_type_recv(S, v)) for v in best.scruts]
+                used = {id(b) for b in sem.locals_in(S, s.node, s.frame)}
+                good = all(b is not None for b in roots) and roots[0] is not roots[1] and any(id(b) in used for b in roots)
+            R.check(good, rule, fn, "the checked types are the static types of both operands", where=s.node.get("sp", h["span"]))
     else:
         R.cannot(rule, fn, "anchor not found")
-    # function call arguments
+    # ---- function call arguments
     fn = "ast::function_expr::FunctionCallExpr::lex_with_function"
     h = E.hir(fn)
     if not h:
         return R.cannot(rule, fn, "anchor not found")
-    n_push = 0
-    for blk in exprs(h["body"], "Block"):
-        stmts = blk.get("stmts", [])
-        for idx, st in enumerate(stmts):
-            if st.get("k") not in ("SSemi", "SExpr"):
+    S = sem.Sem(E, h)
+    # the vector handed to FunctionCallExpr::new
+    news = [s for s in S.sites() if s.node.get("k") == "Call" and norm(s.node.get("callee", "")) == "ast::function_expr::FunctionCallExpr::new"]
+    argvec = sem.root_local(S, news[0].node["args"][1], news[0].frame) if news and len(news[0].node["args"]) >= 2 else None
+    pushes = [s for s in S.sites() if s.node.get("k") == "MethodCall" and s.node["m"] == "push" and argvec is not None and
+              sem.root_local(S, s.node["recv"], s.frame) is argvec]
+    R.floor(rule, "pushes onto the accepted-arguments vector", len(pushes), 1)
+
+    def from_arg_count(b, i):
+        return sem.bind_from_call(b, r"FunctionDefinition::arg_count$|::arg_count$", (("t", i),))
+
+    for s in pushes:
+        cmps = sem.weak_cmps(s.pc)
+        # (1) [*] only in the first argument: on this path `map_each_count() > 0 && index != 0` is false
+        mapeach = False
+        for f in sem.refuted(s.pc):
+            sub = [x for x in sem.weak_cmps(((f, True),))]
+            me = [1 for op, l, r, fr, c in sub if (op == "Lt" and lit_value(l) == 0 and sem.is_method(r, "map_each_count") is not None) or
+                  (op == "Ne" and lit_value(r) == 0 and sem.is_method(l, "map_each_count") is not None)]
+            first = [1 for op, l, r, fr, c in sub if op == "Ne" and ((lit_value(r) == 0 and _is_counter(S, l, fr, argvec)) or
+                                                                    (lit_value(l) == 0 and _is_counter(S, r, fr, argvec)))]
+            first += [1 for op, l, r, fr, c in sub if op == "Lt" and lit_value(l) == 0 and _is_counter(S, r, fr, argvec)]
+            if me and first:
+                mapeach = True
+        R.check(mapeach, rule, fn, "[*] accepted in the first argument only",
+                "no early exit on `map_each_count() > 0 && <argument position> != 0` precedes the push", s.node["sp"])
+        # (2) upper arity bound: on this path `position >= mandatory + optional` is false (when optional is Some)
+        arity = None
+        for op, l, r, fr, c in cmps:
+            bl = sem.locals_in(S, l, fr) + _closure_recv_binds(S, l, fr)
+            br = sem.locals_in(S, r, fr) + _closure_recv_binds(S, r, fr)
+            if any(from_arg_count(b, 0) for b in br) and _is_counter(S, l, fr, argvec) and \
+                    (any(from_arg_count(b, 1) for b in br) or _mentions_optional(S, s.pc, from_arg_count)):
+                adds = [x for x in exprs(r, "Binary") if x["op"] == "Add"]
+                if adds:
+                    arity = op
+        R.check(arity == "Lt", rule, fn, "argument count bounded by mandatory + optional before the push",
+                "on the path to the push the position must be < mandatory + optional; found %s" % (arity or "no such comparison"), s.node["sp"])
+        # (3) check_param's verdict propagated before the argument is accepted
+        checked = False
+        for a, pol in sem.literals(s.pc)[0]:
+            if a.kind == "ok" and pol:
+                root, ch = chain(a.node)
+                if any(x["m"] == "check_param" for x in ch) and all(x["m"] in ("check_param", "map_err") for x in ch):
+                    checked = True
+        R.check(checked, rule, fn, "check_param's verdict is propagated (`?`) before the argument is accepted", where=s.node["sp"])
+    # (4) lower arity bound before the accepting return
+    for s in news:
+        low = None
+        for op, l, r, fr, c in sem.weak_cmps(s.pc):
+            if not c:
                 continue
-            e = strip(st["e"])
-            if not (e.get("k") == "MethodCall" and e["m"] == "push" and local_name(e["recv"]) == "args"):
-                continue
-            n_push += 1
-            mapeach = _guarded_by_preceding_return(stmts, idx, lambda c: c.get("k") == "Binary" and c["op"] == "And" and
-                                                   any(x["m"] == "map_each_count" for x in exprs(c, "MethodCall")) and
-                                                   any(local_name(x) == "index" for x in exprs(c, "Path")))
-            arity = _guarded_by_preceding_return(stmts, idx, lambda c: any(x["m"] == "is_some" for x in exprs(c, "MethodCall")) and
-                                                 any(b == "Ge" for b in binops(c)) and
-                                                 any(local_name(x) == "mandatory_arg_count" for x in exprs(c, "Path")))
-            checked = False
-            for prev in stmts[:idx]:
-                for m in exprs(prev, "Match", into_closures=False):
-                    if str(m.get("src", "")).startswith("TryDesugar"):
-                        s = strip(m["scrut"])
-                        if s.get("k") == "Call" and s.get("args"):
-                            root, ch = chain(s["args"][0])
-                            if any(x["m"] == "check_param" for x in ch) and all(x["m"] in ("check_param", "map_err") for x in ch):
-                                checked = True
-            R.check(mapeach, rule, fn, "[*] accepted in the first argument only", where=e["sp"])
-            R.check(arity, rule, fn, "argument count bounded by mandatory + optional before the push", where=e["sp"])
-            R.check(checked, rule, fn, "check_param's verdict is propagated (`?`) before the argument is accepted", where=e["sp"])
-    R.floor(rule, "args.push sites", n_push, 1)
-    # lower arity bound before Ok
-    body = h["body"]
-    stmts = body.get("stmts", [])
-    low = _guarded_by_preceding_return(stmts, len(stmts), lambda c: c.get("k") == "Binary" and c["op"] == "Lt" and
-                                       any(x["m"] == "len" for x in exprs(c["l"], "MethodCall")) and local_name(c["r"]) == "mandatory_arg_count")
-    R.check(low, rule, fn, "fewer than the mandatory number of arguments is rejected", where=h["span"])
+            if any(from_arg_count(b, 0) for b in sem.locals_in(S, l, fr)) and _is_counter(S, r, fr, argvec):
+                low = op
+            elif any(from_arg_count(b, 0) for b in sem.locals_in(S, r, fr)) and _is_counter(S, l, fr, argvec):
+                low = {"Lt": "Gt", "Le": "Ge"}.get(op, op)
+        R.check(low == "Le", rule, fn, "fewer than the mandatory number of arguments is rejected",
+                "the call node must be built only where mandatory <= number of arguments; found %s" % (low or "no such comparison"), s.node["sp"])
+    R.floor(rule, "FunctionCallExpr::new sites", len(news), 1)
     # the parameter description handed to check_param is the argument's own static type / literal
     fp = "ast::function_expr::{impl core::convert::From<&ast::function_expr::FunctionCallArgExpr> for functions::FunctionParam}::from"
     hp = E.hir(fp)
@@ -486,6 +575,46 @@ def rule_guards(E, R):
                 "argument kind table: expressions are variables, literals are constants", str(tbl), hp["span"])
     else:
         R.cannot(rule, fp, "anchor not found")
+
+
+def _is_counter(S, n, frame, argvec):
+    """n counts the arguments accepted so far: `<argvec>.len()` or a mutable local that starts at 0 and is incremented by 1"""
+    n = sem.peel(n)
+    recv = sem.is_method(n, "len")
+    if recv is not None:
+        return argvec is not None and sem.root_local(S, recv, frame) is argvec
+    b = S.lookup(n, frame)
+    if b is None:
+        return False
+    if b.expr is not None and lit_value(b.expr) == 0 and b.mutable:
+        for a in exprs(frame.h["body"], "AssignOp"):
+            if a["op"] in ("Add", "AddAssign") and S.lookup(a["l"], frame) is b and lit_value(a["r"]) == 1:
+                return True
+    if b.expr is not None and not b.assigns:
+        return _is_counter(S, b.expr, b.frame, argvec)
+    return False
+
+
+def _closure_recv_binds(S, n, frame):
+    """for a closure parameter used in n: the bindings of the receiver of the method call the closure is passed to
+    (`opt.is_some_and(|o| .. o ..)`: o stands for the content of opt)"""
+    out = []
+    for p in exprs(n, "Path"):
+        b = S.lookup(p, frame)
+        if b is not None and b.kind == "closure-param":
+            for mc in exprs(frame.h["body"], "MethodCall"):
+                if any(closure_of(a) is b.owner for a in mc["args"]):
+                    out += sem.locals_in(S, mc["recv"], frame)
+    return out
+
+
+def _mentions_optional(S, pc, from_arg_count):
+    for f, pol in pc:
+        for a, _ in sem.literals(((f, True),))[0] + sem.literals(((f, False),))[0]:
+            for nd in ([a.node] if a.node is not None else []) + [v.node for v in (a.scruts or [])]:
+                if any(from_arg_count(b, 1) for b in sem.locals_in(S, nd, a.frame)):
+                    return True
+    return False
 
 
 LOGICAL_TYPES = ("ast::logical_expr::LogicalExpr", "ast::field_expr::ComparisonExpr", "ast::logical_expr::ParenthesizedExpr")
@@ -579,6 +708,8 @@ def rule_panic(E, R):
         label = "%s site" % k
         if (fn, k) in allowed:
             R.ok(rule, fn, label + " (reviewed)", allowed[(fn, k)], sorted(w)[0])
+        elif moved_panic_reason(E, fn, k, set(allowed), set(sites)):
+            R.ok(rule, fn, label + " (moved)", moved_panic_reason(E, fn, k, set(allowed), set(sites)), sorted(w)[0])
         else:
             R.violation(rule, fn, label,
                         "an explicit panic is reachable from compile()/execute() and is not in the reviewed list (spec/exec_panics.json): "
